@@ -5,7 +5,7 @@ from __future__ import annotations
 import ast
 
 from ..cfg import CFG
-from ..execmodel import run_execute
+from ..execmodel import R, run_execute
 from ..values import Const, Str, Sym, tagof
 from .c03 import rule_after_accept, rule_guards
 from .common import site_loc, text_of, traces
@@ -90,7 +90,7 @@ def rule_sqlstate(ctx):
                 if not tr.hooks.parsed:
                     continue  # undefined-variable path: C07.e
                 n += 1
-                st = tr.cur.attrs.get("_sqlstate")
+                st = tr.cur.attrs.get(R().sqlstate)
                 if mode is None:
                     ok = tr.path.outcome == "return" and isinstance(st, Const) and st.v is None
                     ctx.ob("C07.b", f"{kind}: sqlstate reset by a successful execute", ok, loc, tagof(st))
@@ -112,7 +112,7 @@ def rule_sqlstate(ctx):
         if tr.path.outcome != "return":
             continue
         n += 1
-        st = tr.cur.attrs.get("_sqlstate")
+        st = tr.cur.attrs.get(R().sqlstate)
         ok = isinstance(st, Const) and st.v is None
         ctx.ob("C07.b", f"sqlstate reset by a successful execute with nop_regexes configured (parsed={tr.hooks.parsed})", ok, loc, tagof(st))
         if not ok:
